@@ -144,6 +144,18 @@ def opEma (kv : KV) : Option String := do
         some (specEma beta (((rows.take (i + 1)).filter (fun q => q.1 = r.1)).map (·.2)))
   pure s!"model={showEma model} spec={showEma spec}"
 
+def opNanop (kv : KV) : Option String := do
+  let op ← parseNanOp (← get kv "fn")
+  let k ← parseKind (← get kv "kind")
+  let arr ← parseValList (← get kv "arr")
+  let threads ← parseNat (← get kv "threads")
+  let skipna ← parseNat (← get kv "skipna")
+  let model := match reduce1d generatedROps op k arr (skipna != 0) threads with
+    | some v => v.toStr
+    | none => "undefined"
+  let spec := if skipna != 0 then (if arr.isEmpty && (op == .min || op == .max) then "undefined" else (specNan op k arr).toStr) else "na"
+  pure s!"model={model} spec={spec}"
+
 def opScalar (kv : KV) : Option String := do
   let fn ← get kv "fn"
   let k ← parseKind (← get kv "kind")
@@ -168,6 +180,7 @@ def step (line : String) : String :=
       | "cum" => opCum kv
       | "roll" => opRoll kv
       | "ema" => opEma kv
+      | "nanop" => opNanop kv
       | "firstlast" => opFirstLast kv
       | "mono" => opMono kv
       | _ => none
